@@ -2,6 +2,8 @@ import Driver.Sexp
 import Pcore.Model.Tls
 import Pcore.Model.TlsSmall
 import Pcore.Model.TlsFacts
+import Pcore.Model.GidFacts
+import Pcore.Generated.GidFacts
 /-!
 Driver ops for C14 (syntax shared with harness/c14):
 
@@ -9,6 +11,15 @@ Driver ops for C14 (syntax shared with harness/c14):
     progs (d0 d1 …) <term>      the same with the scheduling oracle d0 d1 …  (see Model/Tls.lean `yield`)
     progi (d0 d1 …) <term>      leaf-level interleaving (Model/TlsSmall.lean `runI`): every goroutine is parked before each
                                 leaf operation; choice d resumes runnable goroutine number d mod #runnable
+
+    hi <minId> <op> <args…>     `op` (prog | progs | progi) run by goroutines whose runtime ids are >= minId (the harness first starts and
+                                ends that many goroutines).  The model of `threadlocal.getg()` over the constants regenerated from
+                                threadlocal/gid.go (`Model/GidFacts.lean`, `Generated/GidFacts.lean`) is asked for the table keys of the ids
+                                minId … minId+255: when every key is the id (always, on a table that satisfies `C14_gid_facts_*`) the
+                                answer is the one of `op`; otherwise `gid-cut <n> <key|panic>` names the first id whose key is not the id
+    gidlive <minId> <k>         goroutine minId runs `pcore.Do` and starts k goroutines minId+1 … minId+k by `px.Fork`, one after the other;
+                                all are alive together; then each looks at its current context: `own=<how many find their own>/<k>
+                                live=<goroutine-local tables while all are alive>` (`GidFacts.liveSim` over the same keys)
 
     term ::= (obs) | (set k n) | (get k) | (del k) | (push n) | (pop) | (deftype a) | (load a) | (panic)
            | (doctx id term…) | (doparent id term…) | (do id term…) | (try id term…) | (doloader term…) | (fork term…) | (go term…) | (seq term…) | (recover term…)
@@ -105,7 +116,13 @@ def schedOf : Sexp → Option (List Nat)
   | .list xs => xs.mapM Sexp.nat?
   | _ => none
 
-def exec : List Sexp → String
+def keyStr : Option Int → String
+  | none => "panic"
+  | some k => toString k
+
+def gidOK (n : Nat) : Bool := 1 ≤ n && n ≤ 20000000
+
+def execProg : List Sexp → String
   | [.atom "prog", t] =>
     match progOf t with
     | some p => render (run implVer [] p)
@@ -119,5 +136,29 @@ def exec : List Sexp → String
     | some sc, some p => render (runI sc p).w
     | _, _ => "bad-op"
   | _ => "bad-op"
+
+def exec : List Sexp → String
+  | .atom "hi" :: m :: rest =>
+    match m.nat? with
+    | some minId =>
+      if !gidOK minId then "bad-op" else
+      match rest with
+      | .atom "prog" :: _ | .atom "progs" :: _ | .atom "progi" :: _ =>
+        -- a malformed inner op is malformed whatever the ids
+        let inner := execProg rest
+        if inner == "bad-op" then "bad-op" else
+        match Pcore.GidFacts.firstInexact Pcore.Generated.gidFacts minId 256 with
+        | none => inner
+        | some n => s!"gid-cut {n} {keyStr (Pcore.GidFacts.keyOf Pcore.Generated.gidFacts n)}"
+      | _ => "bad-op"
+    | none => "bad-op"
+  | [.atom "gidlive", m, k] =>
+    match m.nat?, k.nat? with
+    | some minId, some k =>
+      if !gidOK minId || k < 1 || k > 256 then "bad-op" else
+      let (own, live) := Pcore.GidFacts.liveSim Pcore.Generated.gidFacts minId k
+      s!"own={own}/{k} live={live}"
+    | _, _ => "bad-op"
+  | args => execProg args
 
 end C14
